@@ -299,10 +299,13 @@ def transpose(score: ScoreLike, interval: Interval) -> ScoreLike:
     # Copy needs to be deep, otherwise the recursion limit will be exceeded
     old_recursion_depth = sys.getrecursionlimit()
     sys.setrecursionlimit(10000)
-    # Deep copy of score
-    new_score = copy.deepcopy(score)
-    # Reset recursion limit to previous value to avoid side effects
-    sys.setrecursionlimit(old_recursion_depth)
+    try:
+        # Deep copy of score
+        new_score = copy.deepcopy(score)
+    finally:
+        # Reset recursion limit to previous value to avoid side effects
+        # (also when the copy fails)
+        sys.setrecursionlimit(old_recursion_depth)
     # transpose the notes of the copy, not of the argument
     if isinstance(new_score, s.Score):
         for part in new_score.parts:
